@@ -7,6 +7,50 @@ pub fn run(report: &Report) {
     report.require("models_built");
     super::mfamily::run(report, "C19");
     super::pyfront::c19_part(report);
+    user_tables_part(report);
+    super::pyfront::sweep(report, "misuse", 0,
+        "Python Categorical family with probability arrays that hold no model (rows of zero entries, rank 1, rank 3): refused, nothing coded",
+        &["cannot be honoured is accepted"], &[]);
+}
+
+/// The conversions (`to_generic_encoder_model`, `to_generic_decoder_model`, `to_generic_lookup_decoder_model`) are
+/// constructors fed by a user-written `IterableEntropyModel`: for every table of the hostile-table space of C20 they
+/// either refuse (panic) or the table was a valid tiling of [0, 2^P) - in particular a table that overshoots 2^P and
+/// wraps around the probability type back onto 2^P is not a model.
+fn user_tables_part(report: &Report) {
+    use super::c20::{table_cases, Rows8};
+    use crate::isolate::{guarded, Outcome};
+    use constriction::stream::model::{DecoderModel, EncoderModel, IterableEntropyModel};
+    let (mut n, mut accepted, mut refused) = (0u64, 0u64, 0u64);
+    for t in table_cases() {
+        let mut acc = 0u32;
+        let mut valid = !t.is_empty(); // (a one-row table with probability 2^P is degenerate but consistent; the library's own constructors refuse it, the conversions copy it)
+        for &(_, c, p) in &t { if c as u32 != acc || p == 0 { valid = false; } acc += p as u32; }
+        if acc != 16 { valid = false; }
+        // (repeated symbol labels are the user's business: a decoder model may map several intervals to one label)
+        let m = Rows8 { rows: t.clone() };
+        for conv in 0..3 {
+            n += 1;
+            let ok = match conv {
+                0 => matches!(guarded(|| { let g = m.to_generic_encoder_model(); let _ = g.left_cumulative_and_probability(0u8); }), Outcome::Value(())),
+                1 => matches!(guarded(|| { let g = m.to_generic_decoder_model(); let _ = g.quantile_function(0); }), Outcome::Value(())),
+                _ => matches!(guarded(|| { let g = m.to_generic_lookup_decoder_model(); let _ = g.quantile_function(0); }), Outcome::Value(())),
+            };
+            if ok { accepted += 1; } else { refused += 1; }
+            // (the encoder-side hash table has no way of knowing what is missing; the decoder-side conversions see the whole table)
+            if ok && !valid && conv != 0 {
+                report.violation(crate::report::Violation { identity: format!("{} | a user-written table that is not a valid tiling of [0, 2^P) is accepted", ["to_generic_encoder_model", "to_generic_decoder_model", "to_generic_lookup_decoder_model"][conv]),
+                    detail: format!("rows (symbol, cumulative, probability) {:?} at PRECISION 4 over u8", t), case: serde_json::json!({"kind": "none"}) });
+            }
+            if !ok && valid {
+                report.violation(crate::report::Violation { identity: format!("{} | a valid user-written table is refused", ["to_generic_encoder_model", "to_generic_decoder_model", "to_generic_lookup_decoder_model"][conv]),
+                    detail: format!("rows {:?}", t), case: serde_json::json!({"kind": "none"}) });
+            }
+        }
+    }
+    report.add_states(n);
+    report.count("user_table_conversions", n);
+    report.section(serde_json::json!({"part": "conversions of user-written IterableEntropyModel tables", "tables": table_cases().len(), "conversions": n, "accepted": accepted, "refused": refused}));
 }
 
 pub fn replay(case: &serde_json::Value) -> Result<String, String> {
